@@ -91,6 +91,7 @@ let do_simp t =
     ""
   end
 
+let last_of l = List.nth l (List.length l - 1)
 let select_flags p fl = collect true (nat_of_int (plen p)) O p fl
 
 let do_rdp t =
@@ -106,20 +107,23 @@ let do_rdp t =
      | Ok s when peq s out -> ()
      | _ -> corr "RamerDouglasPeucker output differs from the vertices flagged by a direct RDP call");
     nontrivial := not (peq out p);
-    let rep = has_repeat p in
+    (* the one failure mode of the unchanged code: the un-flagging loop of RDP fires iff first == last (top-level call) *)
+    let first_eq_last = (match p with a :: _ :: _ -> plen p >= 5 && pt_eqb a (last_of p) | _ -> false) in
     if not (sublistb out p) then prop "rdp.not-subsequence" "result is not a subsequence of the input";
-    if plen p >= 2 && not (keeps_ends out p) then
-      prop (if rep then "rdp.eq-endpoints-unflag.drops-end" else "rdp.ends-lost") "first/last vertex not kept";
+    let nfl = List.length fl in
+    if plen p >= 2 && (nfl <> plen p || not (List.hd fl) || not (List.nth fl (nfl - 1)) || not (keeps_ends out p)) then
+      prop (if first_eq_last then "rdp.first-eq-last-drops-end" else "rdp.ends-lost")
+        (if first_eq_last then "the path ends where it starts: RDP un-flags the last vertex (and every trailing vertex equal to the first) and keeps no new end"
+         else "first/last vertex not kept");
     (match rdp_bad_f p fl eps with
      | [] -> ()
-     | bad -> prop (if rep then "rdp.eq-endpoints-unflag.bound" else "rdp.bound")
+     | bad -> prop (if first_eq_last then "rdp.first-eq-last-drops-end" else "rdp.bound")
                 (Printf.sprintf "removed vertices %s are farther than epsilon from the line through their surviving neighbours (or have none)"
                    (String.concat "," (List.map (fun n -> string_of_int (int_of_nat n)) bad))));
     ""
   end
 
 let rec adj_ok f = function a :: (b :: _ as t) -> f a b && adj_ok f t | _ -> true
-let last_of l = List.nth l (List.length l - 1)
 
 let do_sdup t =
   let c = next_bool t in let p = read_path t in
